@@ -100,6 +100,9 @@ def prepare(ctx, text, filename, max_sites, want_lint=True):
         g = fd.dump_graph(scope)
     except (SyntaxError, UnicodeDecodeError, ValueError, RecursionError):
         return None
+    except fd.DumpError as e:
+        ctx.histogram('dumper_failed_closed', str(e)[:60])
+        return None
     sites = fd.read_sites(src)
     multi = []
     for k, n in enumerate(sites):
